@@ -32,6 +32,7 @@ const uint32_t HW = hexref::W_HEXSIM;
 
 struct CorpusEntry { std::string name, kind, file, image; std::vector<std::string> inputs; };
 std::vector<CorpusEntry> g_corpus;
+std::vector<size_t> g_big;         // indices of the large binaries
 void loadCorpus() {
   const char *p = getenv("VERIF_CORPUS");
   if (!p || !*p) return;
@@ -44,7 +45,7 @@ void loadCorpus() {
     c.file = sim::fromHex(e.getStr("file_hex"));
     c.image = sim::fromHex(e.getStr("image_hex"));
     if (auto *in = e.find("inputs")) for (auto &i : in->a) c.inputs.push_back(sim::fromHex(i.s));
-    if (!c.file.empty()) g_corpus.push_back(c);
+    if (!c.file.empty()) { if (c.kind == "asmbig") g_big.push_back(g_corpus.size()); g_corpus.push_back(c); }
   }
 }
 const CorpusEntry *corpusByName(const std::string &n) {
@@ -169,6 +170,7 @@ struct PlanView {
   std::string memKind = "random"; uint64_t memSeed = 0;
   std::vector<std::pair<uint32_t, uint32_t>> words;   // planted words (outside the loaded file)
   std::string simin[8]; bool siminPresent[8] = {};
+  bool trace = false;               // run hextb with -t (C13 only)
 };
 PlanView view(const Json &plan) {
   PlanView v;
@@ -187,6 +189,7 @@ PlanView view(const Json &plan) {
     else if (k == "plant_mem") { v.hasPlant = true; v.memKind = op.getStr("kind", "random"); v.memSeed = op.getU64("seed"); }
     else if (k == "plant_word") { v.hasPlant = true; v.words.push_back({(uint32_t)op.getU64("addr") % RTLW, (uint32_t)op.getU64("value")}); }
     else if (k == "simin") { unsigned i = (unsigned)(op.getU64("idx") & 7); v.siminPresent[i] = true; v.simin[i] = sim::fromHex(op.getStr("hex")); }
+    else if (k == "options") v.trace = op.getBool("trace");
   }
   v.image = imageOfFile(v.file);
   return v;
@@ -285,6 +288,8 @@ public:
     const CorpusEntry *ce = g_corpus.empty() ? nullptr : &g_corpus[r.below(g_corpus.size())];
     // Small programs dominate; the big ones (the X compiler compiling itself) only rarely.
     for (int tries = 0; ce && ce->file.size() > 20000 && tries < 3 && !r.chance(1, 50); tries++) ce = &g_corpus[r.below(g_corpus.size())];
+    // Binaries of several hundred kilobytes get their own share (loader limits show only there).
+    if (!g_big.empty() && r.chance(1, 25)) ce = &g_corpus[g_big[r.below(g_big.size())]];
     {
       Json op = Json::object(); op["op"] = "program";
       if (ce) op["corpus"] = ce->name; else op["file_b16"] = sim::toHex(std::string("\x02\x00\x00\x00\x97\x00\x00\x00\x00\x00\x00\x00", 12));
@@ -311,6 +316,7 @@ public:
         ops.push(op);
       }
     }
+    if (c13 && r.chance(1, 4)) { Json op = Json::object(); op["op"] = "options"; op["trace"] = true; ops.push(op); }   // hextb -t
     uint32_t fileWords = ce ? (uint32_t)((ce->file.size() - 4 + 3) / 4) : 2;
     uint32_t imgBytes = ce ? (uint32_t)ce->image.size() : 8;
     bool plant = c13 ? r.chance(3, 5) : r.chance(1, 6);
@@ -379,7 +385,7 @@ public:
   }
 
   // Through the real main(): power-on state from Verilator's own randomisation.
-  ToolOutcome runTbMain(const PlanView &v, uint64_t seed, uint64_t watchdog, std::string *inv) {
+  ToolOutcome runTbMain(const PlanView &v, uint64_t seed, uint64_t watchdog, std::string *inv, bool trace = false) {
     stageFiles(v);
     resetTbGlobals();
     ss.attach(v.input);
@@ -389,6 +395,7 @@ public:
     // The banner length is not known before load(); treat everything up to the first newline as banner.
     g_tick.bannerLen = 64;
     std::vector<std::string> argv = {"hextb", "prog.bin", "+verilator+seed+" + std::to_string(seed), "--max-cycles", std::to_string(watchdog)};
+    if (trace) argv.push_back("-t");
     ToolOutcome t;
     sim::simclock::activate(1000000000ull, 4242);
     t.t = sim::runTool(hextb_main, argv);
@@ -402,7 +409,7 @@ public:
   }
 
   // load() and run() called directly, with the power-on state written in between.
-  ToolOutcome runTbPlanted(const PlanView &v, bool allZero, uint64_t watchdog, std::string *inv) {
+  ToolOutcome runTbPlanted(const PlanView &v, bool allZero, uint64_t watchdog, std::string *inv, bool trace = false) {
     stageFiles(v);
     resetTbGlobals();
     ss.attach(v.input);
@@ -449,7 +456,7 @@ public:
         g_tick.regsKnown = true; g_tick.pPc = proc->pc_q; g_tick.pA = proc->areg_q; g_tick.pB = proc->breg_q; g_tick.pO = proc->oreg_q;
         g_tick.bannerLen = ss.out.data.size();
       }
-      return run(contextp, top, false, watchdog);
+      return run(contextp, top, trace, watchdog);
     });
     sim::simclock::deactivate();
     g_tick.active = false;
@@ -517,12 +524,13 @@ public:
     // with a small watchdog, and a watchdog outcome is an outcome like any other.
     if (!c.judged && c.why != "no_exit_in_budget") { o.note = "skipped:" + c.why; o.hash = sim::g_log.hashHex(); return o; }
     uint64_t watchdog = c.judged ? c.steps + 64 : 3000;
-    uint64_t key = sim::mix64(sim::hashStr(v.file), sim::hashStr(v.input), watchdog);
+    bool trace = v.trace && c.judged && c.steps <= 2500;        // every traced cycle is a line of output
+    uint64_t key = sim::mix64(sim::hashStr(v.file), sim::hashStr(v.input), watchdog * 2 + (trace ? 1 : 0));
     for (int k = 0; k < 8; k++) if (v.siminPresent[k]) key = sim::mix64(key, (uint64_t)k + 1, sim::hashStr(v.simin[k]));
     auto it = refCache.find(key);
     if (it == refCache.end()) {
       sim::g_log.reset(false);
-      ToolOutcome ref = runTbPlanted(v, true, watchdog, nullptr);
+      ToolOutcome ref = runTbPlanted(v, true, watchdog, nullptr, trace);
       if (refCache.size() > 4000) refCache.clear();
       it = refCache.emplace(key, ref).first;
       o.count("probe.reference_runs");
@@ -532,8 +540,9 @@ public:
     logFaults(v);
     std::string inv;
     ToolOutcome t;
-    if (v.hasPlant) { t = runTbPlanted(v, false, watchdog, &inv); o.count("fault.planted_state"); o.count("fault.planted_mem_" + v.memKind); }
-    else { t = runTbMain(v, v.poweron, watchdog, &inv); o.count("fault.verilator_seed"); }
+    if (v.hasPlant) { t = runTbPlanted(v, false, watchdog, &inv, trace); o.count("fault.planted_state"); o.count("fault.planted_mem_" + v.memKind); }
+    else { t = runTbMain(v, v.poweron, watchdog, &inv, trace); o.count("fault.verilator_seed"); }
+    if (trace) o.count("fault.hextb_trace_option");
     o.simCycles = g_tick.ticks / 2;
     o.nontrivial = true;
     if (g_tick.releaseTime) o.count("probe.reset_released_seen");
